@@ -15,11 +15,15 @@ def run(repo, res, tier):
         "Not decided: that line/column arithmetic is right for every text (values are not computed).")
     res.assumptions = ["precondition of char_allowed: a single character", "str.encode('ascii') succeeds iff ord <= 127"]
     common.rule_i1(repo, res)
+    from .. import effects as _eff
+    _eff.rule_shared_class_state(repo, res, families=("PVLGrammar",))
     guard_info = lexrules.rule_i2(repo, res)
     lexrules.rule_i3(repo, res, guard_info)
     lexrules.rule_lookahead(repo, res)
     from .. import langrules as _lr
     _lr.rule_lookahead_lang(repo, res, _lr.analyse(repo))
+    # the permissive reader returns every character unchanged inside strings: only the grammar's white space is folded
+    _lr.rule_fold(repo, res, _lr.analyse(repo))
     common.lexer_yield_rule(repo, res)
     an = parserules.analyse(repo)
     t2 = parserules.add_rule(res, an, "T2")
